@@ -342,21 +342,39 @@ def check_meta(rep, sc, outs, idx, seed):
             # listed finding: hills a peer deposited before it last rewrote its state file (and restarted its hills file) are
             # missing until this walker re-reads the peers' states: the peer contributes hills j..k with all of 0..j-1 older
             # than that rewrite
+            # (the peer contributes hills 0..a-1 and j..k-1: the gap a..j-1 lies entirely before the rewrite)
             wins = []
             for p, acc in zip(peers, sums):
                 lastw = (done[p] // sc["R"]) * sc["R"]
-                opts = []
-                for j in range(len(acc)):
-                    if j > 0 and hills[p][j - 1][0] > lastw:
-                        break
-                    for k in range(j, len(acc)):
-                        opts.append((j, k, acc[k] - acc[j]))
-                wins.append(opts)
+                opts = {}
+                for a in range(len(acc)):
+                    for j in range(a, len(acc)):
+                        # the gap starts with a hill older than the rewrite (its cursor in the restarted file is stale: hills
+                        # written to the new file before the cursor position are skipped as well)
+                        if j > a and hills[p][a][0] > lastw:
+                            break
+                        for k in range(j, len(acc)):
+                            v = acc[a] + acc[k] - acc[j]
+                            key = round(v, 12)
+                            if key not in opts or (j - a) < opts[key][0]:
+                                opts[key] = (j - a, v)
+                wins.append(list(opts.values()))
             hit = None
-            for combo in itertools.product(*wins):
-                tot = own + sum(c[2] for c in combo)
-                if abs(tot - e) <= 1e-9 + 1e-9 * abs(e):
-                    hit = combo; break
+            if len(wins) == 1:
+                for c in wins[0]:
+                    if abs(own + c[1] - e) <= 1e-9 + 1e-9 * abs(e):
+                        hit = (c,); break
+            else:
+                # two peers: sort one side and search the complement
+                import bisect
+                B = sorted(wins[1], key=lambda c: c[1]); Bv = [c[1] for c in B]
+                for c0 in wins[0]:
+                    need_ = e - own - c0[1]
+                    i0 = bisect.bisect_left(Bv, need_ - 1e-9 - 1e-9 * abs(e))
+                    while i0 < len(B) and Bv[i0] <= need_ + 1e-9 + 1e-9 * abs(e):
+                        hit = (c0, B[i0]); break
+                    if hit:
+                        break
             if hit is not None and any(c[0] > 0 for c in hit):
                 rep.violation("multiple-walker metadynamics oracle: walker %d at step %d misses the hills walker(s) %s deposited before rewriting their state file"
                               % (w, s_, [p for p, c in zip(peers, hit) if c[0] > 0]), replay, "mw_window_%d_seed%d" % (idx, seed), found_input=True,
